@@ -18,6 +18,12 @@ import (
 
 const findingKey = "findmissing-batch-incall-allocation-demotes-unrefreshed-object"
 
+// findingKey2: blocks allocated by OTHER clients while a FindMissing is
+// copying (refreshing) an object eat into the lifetime of that copy, which
+// was placed when its space was allocated; counted from the completion of
+// the call the object can be gone after fewer than old_blocks+1 allocations.
+const findingKey2 = "findmissing-refresh-copy-outlived-by-concurrent-allocations"
+
 func TestMain(m *testing.M) {
 	log.SetOutput(io.Discard)
 	rc := m.Run()
@@ -66,15 +72,20 @@ type obligation struct {
 	complete int // NewBlock calls when the call returned (literal reading)
 	how      string
 	multiFM  bool // reported present by a multi-object FindMissing that allocated in-call
+	// overlappedCopy: single-object FindMissing whose refresh copy was
+	// overlapped by >= 1 block allocation of other clients (known finding 2).
+	overlappedCopy bool
 }
 
 type tracker struct {
-	t     *rapid.T
-	w     *lstore.World
-	c     *vstats.Case
-	obl   []*obligation
-	known bool
+	t      *rapid.T
+	w      *lstore.World
+	c      *vstats.Case
+	obl    []*obligation
+	known  bool
+	known2 bool
 	// statistics
+	literalGaps2                                       int
 	refreshingTouches, checkedAfterAllocs, literalGaps int
 }
 
@@ -142,6 +153,14 @@ func (tr *tracker) literalCheck(lit []*obligation) []*obligation {
 				}
 				tr.t.Fatalf("C05: object %d (inst %q) was reported present by a multi-object FindMissing that allocated blocks for other objects, and is gone after only %d allocation(s) counted from the completion of that call (old_blocks=%d) [shape %s]\n%s", ob.o.ID, ob.inst, since, w.Cfg.Old, findingKey, w.Render())
 			}
+			if ob.overlappedCopy {
+				tr.literalGaps2++
+				if tr.known2 {
+					rec.Excluded(findingKey2)
+					continue
+				}
+				tr.t.Fatalf("C05: object %d (inst %q) was reported present by a FindMissing whose refresh copy was overlapped by block allocations of other clients, and is gone after only %d allocation(s) counted from the completion of that call (old_blocks=%d) [shape %s]\n%s", ob.o.ID, ob.inst, since, w.Cfg.Old, findingKey2, w.Render())
+			}
 			tr.t.Fatalf("C05: object %d (inst %q), touched by %s, is gone %d allocation(s) after the call completed (old_blocks=%d)\n%s", ob.o.ID, ob.inst, ob.how, since, w.Cfg.Old, w.Render())
 		}
 		keep = append(keep, ob)
@@ -151,6 +170,7 @@ func (tr *tracker) literalCheck(lit []*obligation) []*obligation {
 
 func TestC05Retention(t *testing.T) {
 	known := vstats.KnownListed("C05", findingKey)
+	known2 := vstats.KnownListed("C05", findingKey2)
 	rapid.Check(t, func(t *rapid.T) {
 		c := rec.Begin()
 		cfg := lstore.GenConfig(t, lstore.GenOpts{BigIndex: true, AllowAC: true, Factories: []string{"cas", "raw"}, MaxBlockBytes: 96})
@@ -158,9 +178,10 @@ func TestC05Retention(t *testing.T) {
 		w := lstore.NewWorld(t, cfg, nil, rapid.Uint64().Draw(t, "hashInit"))
 		defer w.Close()
 		h := lstore.NewHist(t, w, c, lstore.HistOpts{Holds: true}) // slow Gets = concurrent touches
-		tr := &tracker{t: t, w: w, c: c, known: known}
+		tr := &tracker{t: t, w: w, c: c, known: known, known2: known2}
 		var literal []*obligation
 		overlappedTouches := 0
+		parkedTouches := 0
 
 		// KLM monitor: remember at which allocation count each key was
 		// last (re)written.
@@ -310,8 +331,50 @@ func TestC05Retention(t *testing.T) {
 			ob := &obligation{o: o, inst: inst, verdict: v, complete: end, how: "a FindMissing (overlapping with uploads) that reported it present"}
 			tr.obl = append(tr.obl, ob)
 		}
+		// A single-object FindMissing running as a thread that parks right
+		// before its refresh copy; uploads complete meanwhile (rotations
+		// between the allocation of the copy and the rewrite of the index
+		// entry), then it finishes.
+		touchFindParked := func(t *rapid.T) {
+			o := lstore.PickObj(t, w, "obj")
+			if o == nil {
+				touchFind(t)
+				return
+			}
+			inst := rapid.SampledFrom(lstore.InstanceNames).Draw(t, "inst")
+			n := rapid.IntRange(0, 3).Draw(t, "uploadsBetween")
+			c.Add("fmParked", o.ID, inst, n)
+			start := w.St.Alloc.NewBlockCalls
+			p := w.StartFindMissing([]lstore.ObjInst{{Obj: o, Instance: inst}})
+			if p.Parks > 0 {
+				parkedTouches++
+				for i := 0; i < n; i++ {
+					w.FinishPut(h.NewUpload())
+				}
+			}
+			w.FinishPendingFM()
+			if p.Err != nil || p.Present == nil || !p.Present[0] {
+				return
+			}
+			end := w.St.Alloc.NewBlockCalls
+			// Verdict point: the store placed the refresh copy when it
+			// allocated its space (the thread parked right after that);
+			// without a refresh, the start of the call.
+			v := start
+			foreign := 0
+			if p.Parks > 0 {
+				v = p.AllocsAtPark[0]
+				foreign = end - v
+			}
+			ob := &obligation{o: o, inst: inst, verdict: v, complete: end, overlappedCopy: foreign > 0,
+				how: "a FindMissing (parked in its refresh copy while uploads completed) that reported it present"}
+			tr.obl = append(tr.obl, ob)
+			literal = append(literal, ob)
+		}
 		acts := h.Actions()
 		acts["touchFindOverlapped"] = touchFindOverlapped
+		acts["touchFindParked"] = touchFindParked
+		delete(acts, "fmStep")
 		delete(acts, "get")
 		delete(acts, "findmissing")
 		acts["touchGet"] = touchGet
@@ -342,6 +405,8 @@ func TestC05Retention(t *testing.T) {
 		c.ClassIf(tr.refreshingTouches > 0, "touch_refreshed_an_object")
 		c.ClassIf(tr.checkedAfterAllocs > 0, "obligation_checked_after_allocations")
 		c.ClassIf(tr.literalGaps > 0, "known_finding_shape_excluded")
+		c.ClassIf(tr.literalGaps2 > 0, "known_finding_2_shape_excluded")
+		c.ClassIf(parkedTouches > 0, "findmissing_parked_in_refresh_copy_while_uploads_completed")
 		c.ClassIf(overlappedTouches > 0, "findmissing_waited_for_refresh_lock_while_uploads_rotated")
 		c.ClassIf(slowGets > 0, "slow_get_completed_concurrently_with_other_touches")
 		c.ClassIf(cfg.Old == 0, "old_blocks_zero")
@@ -404,4 +469,74 @@ func TestC05KnownFindingProbe(t *testing.T) {
 		t.Fatalf("C05: %s\n%s", msg, w.Render())
 	}
 	t.Logf("finding %s did not reproduce (inCall=%d puts %d->%d)", findingKey, inCall, p1, p2)
+}
+
+var recProbe2 = vstats.New("TestC05KnownFinding2Probe")
+
+// TestC05KnownFinding2Probe replays the minimal history of the second known
+// finding: a single-object FindMissing copies (refreshes) an object; while
+// the copy is in progress other clients' uploads allocate blocks; counted
+// from the completion of the call the object is gone after fewer than
+// old_blocks+1 further allocations.
+func TestC05KnownFinding2Probe(t *testing.T) {
+	known := vstats.KnownListed("C05", findingKey2)
+	cfg := lstore.Config{BlockDevice: false, SectorSize: 1, BlockSectors: 4, Old: 2, Cur: 0, New: 1,
+		IndexSize: 1021, GetAttempts: 16, PutAttempts: 64, Factory: "cas", StorageType: "verif"}
+	w := lstore.NewWorld(t, cfg, nil, 0)
+	defer w.Close()
+	put := func() *lstore.Obj {
+		o := w.NewObject(4, remoteexecution.DigestFunction_SHA256)
+		w.FinishPut(w.StartPut(o, "", "good", o.Data, nil, nil))
+		return o
+	}
+	var objs []*lstore.Obj
+	for i := 0; i < 6; i++ {
+		objs = append(objs, put()) // one object per block; steady state: old, old, new
+	}
+	// The newest object that still lives in an old block: an existence
+	// check refreshes it.
+	var x *lstore.Obj
+	for _, o := range objs {
+		if !readable(w, o, "") {
+			continue
+		}
+		w.St.Lock.RLock()
+		loc, err := w.St.KLM.KeyLocationMap.Get(lookupKeys(w, o, "")[0])
+		needsRefresh := false
+		if err == nil {
+			_, needsRefresh = w.St.LBM.Get(loc)
+		}
+		w.St.Lock.RUnlock()
+		if needsRefresh {
+			x = o
+		}
+	}
+	if x == nil {
+		t.Logf("finding %s did not reproduce (no object in an old block)", findingKey2)
+		return
+	}
+	p := w.StartFindMissing([]lstore.ObjInst{{Obj: x}})
+	parked := p.Parks > 0
+	put() // other clients, while the refresh copy of x is in progress
+	put()
+	w.FinishPendingFM()
+	reported := p.Err == nil && p.Present != nil && p.Present[0]
+	completed := w.St.Alloc.NewBlockCalls
+	put() // ONE further allocation after the call completed (old_blocks = 2)
+	since := w.St.Alloc.NewBlockCalls - completed
+	gone := !readable(w, x, "")
+	c := recProbe2.Begin()
+	c.Add("probe2", parked, reported, since, gone)
+	c.NonTrivial()
+	c.Sample(func() string { return w.Render() })
+	c.End()
+	if parked && reported && gone && since <= cfg.Old {
+		msg := fmt.Sprintf("a FindMissing whose refresh copy is overlapped by block allocations of other clients reports the object present, and the object is gone %d allocation(s) after the call completed although old_blocks=%d: the copy's lifetime runs from the allocation of its space, not from the completion of the call (key=%s)", since, cfg.Old, findingKey2)
+		if known {
+			fmt.Printf("KNOWN-FINDING: property=C05 %s\n", msg)
+			return
+		}
+		t.Fatalf("C05: %s\n%s", msg, w.Render())
+	}
+	t.Logf("finding %s did not reproduce (parked=%v reported=%v gone=%v since=%d)", findingKey2, parked, reported, gone, since)
 }
